@@ -2,6 +2,8 @@ CONSTANTS
   CacheKeyedByNameOnly = FALSE
   ContentCacheByFile = FALSE
   ResultsAliased = TRUE
+  GetMemberRewinds = FALSE
+  LazyScanDiesOnFault = FALSE
   EmitH = FALSE
 SPECIFICATION Spec
 INVARIANT CacheCoherent
